@@ -8,7 +8,6 @@ use serde::Deserialize;
 use serde::de::DeserializeOwned;
 use serde_saphyr::{Budget, DuplicateKeyPolicy, Error, Options, RcAnchor};
 use std::borrow::Cow;
-use vcore::obs::{Fault, FaultReader, Schedule};
 
 // ------------------------------------------------------------------ entry points
 
@@ -57,8 +56,9 @@ impl Entry {
     pub fn needs_str(self) -> bool {
         matches!(self, Entry::FromStr | Entry::FromMultiple | Entry::WithDeStr)
     }
-    pub fn idx(self) -> usize {
-        Entry::ALL.iter().position(|e| *e == self).unwrap()
+    /// Entry points that pull the input through `std::io::Read`.
+    pub fn is_reader(self) -> bool {
+        matches!(self, Entry::ReaderC1 | Entry::ReaderC7 | Entry::ReadIter | Entry::WithDeReader)
     }
 }
 
@@ -143,8 +143,58 @@ impl CallRes {
     }
 }
 
-fn reader<'a>(input: &'a [u8], chunk: usize) -> FaultReader<'a> {
-    FaultReader::new(input, Schedule::fixed(chunk), Fault::None)
+/// Marker at the start of the panic message a `FuelReader` uses to break out of a
+/// caller that keeps polling it at end of input.
+pub const FUEL_MARK: &str = "C01-FUEL";
+
+/// How many `read` calls after the first end-of-input answer a caller may make
+/// before the reader gives up on it. A correct caller polls at EOF a few times
+/// per token at most; the allowance is far above that (and scales with the input).
+/// Set in the confirming child process (`c01 child … nofuel`): the reader never gives up.
+pub static NO_FUEL: std::sync::atomic::AtomicBool = std::sync::atomic::AtomicBool::new(false);
+
+pub fn fuel_for(len: usize) -> u64 {
+    if NO_FUEL.load(std::sync::atomic::Ordering::Relaxed) {
+        return u64::MAX;
+    }
+    if cfg!(miri) { 5_000 + 4 * len as u64 } else { 50_000 + 16 * len as u64 }
+}
+
+/// Chunked in-memory reader. After end of input it keeps answering `Ok(0)`; a
+/// caller that polls it more than `fuel` further times is spinning without
+/// progress, and the only way to get the worker thread back from such a loop is
+/// to unwind out of it: the reader panics with `FUEL_MARK` (the oracle turns
+/// that into a *suspected hang*, confirmed separately in a child process whose
+/// reader has no fuel limit).
+pub struct FuelReader<'a> {
+    data: &'a [u8],
+    pos: usize,
+    chunk: usize,
+    after_eof: u64,
+    fuel: u64,
+}
+
+impl std::io::Read for FuelReader<'_> {
+    fn read(&mut self, buf: &mut [u8]) -> std::io::Result<usize> {
+        if buf.is_empty() {
+            return Ok(0);
+        }
+        if self.pos >= self.data.len() {
+            self.after_eof += 1;
+            if self.after_eof > self.fuel {
+                panic!("{FUEL_MARK}: reader polled {} times after end of input ({} bytes)", self.after_eof, self.data.len());
+            }
+            return Ok(0);
+        }
+        let n = self.chunk.min(buf.len()).min(self.data.len() - self.pos);
+        buf[..n].copy_from_slice(&self.data[self.pos..self.pos + n]);
+        self.pos += n;
+        Ok(n)
+    }
+}
+
+fn reader<'a>(input: &'a [u8], chunk: usize) -> FuelReader<'a> {
+    FuelReader { data: input, pos: 0, chunk: chunk.max(1), after_eof: 0, fuel: fuel_for(input.len()) }
 }
 
 /// Upper bound on the number of items a drained `read` iterator may yield: every
